@@ -1,10 +1,22 @@
 (* Consequences of AppInv that property C02 states: claims are disjoint and tile, one padder per term,
    committed frames never change, and at quiescence every live partition is a gap-free sequence of
    well-formed frames holding exactly the frames of the accepted messages. *)
-Require Import V.Base.MachineInt V.Generated.GenConsts V.Model.LogBase V.Model.Descriptor V.Proofs.DescriptorProofs
-               V.Model.Sched V.Model.AppenderThreads V.Proofs.TailArith V.Proofs.FragArith V.Proofs.AppenderInv
-               V.Proofs.AppenderLemmas V.Proofs.AppenderFrame V.Proofs.AppenderSteps V.Proofs.AppenderFaa
-               V.Proofs.AppenderRotate V.Proofs.AppenderSystem.
+Require Import V.Base.MachineInt.
+Require Import V.Generated.GenConsts.
+Require Import V.Model.LogBase.
+Require Import V.Model.Descriptor.
+Require Import V.Proofs.DescriptorProofs.
+Require Import V.Model.Sched.
+Require Import V.Model.AppenderThreads.
+Require Import V.Proofs.TailArith.
+Require Import V.Proofs.FragArith.
+Require Import V.Proofs.AppenderInv.
+Require Import V.Proofs.AppenderLemmas.
+Require Import V.Proofs.AppenderFrame.
+Require Import V.Proofs.AppenderSteps.
+Require Import V.Proofs.AppenderFaa.
+Require Import V.Proofs.AppenderRotate.
+Require Import V.Proofs.AppenderSystem.
 From Coq Require Import ZifyBool.
 Open Scope Z_scope.
 
